@@ -36,7 +36,7 @@ PROPS = {
         design_ref="DESIGN.md section 4, C01",
     ),
     "C02": S(
-        [o.opc1_cache_normalisation, o.exi2_consumers, o.alias1, o.int_intervals, o.opc5_version_coverage, o.opc6_exit_templates, o.opc8_jump_arithmetic, o.opc10_handler_queue_order, o.exi1_producers] + [version.ver1_opcodes, version.ver2_dispatch, fmt.mode4],
+        [o.opc1_cache_normalisation, o.exi2_consumers, o.alias1, o.int_intervals, o.opc5_version_coverage, o.opc6_exit_templates, o.opc8_jump_arithmetic, o.opc10_handler_queue_order, o.exi1_producers] + [version.ver1_opcodes, version.ver2_dispatch, fmt.mode4, fmt.cont7],
         explanation="Clauses specific to frames running on the calling thread: a forward must-dataflow over the CFG of currently_exiting_context tracks whether `offs` has skipped inline CACHE units "
                     "on every path to each identity test against an opcode that carries cache entries in some reachable interpreter (SEND on 3.12, CALL on 3.11/3.12, PRECALL on 3.11) -- "
                     "a running frame's f_lasti may rest on such an entry; every consumer addresses the exiting context as [-1] and recovers obj from the first argument of the next inner frame; "
@@ -119,7 +119,7 @@ PROPS = {
         design_ref="DESIGN.md section 4, C12",
     ),
     "C13": S(
-        e.C13,
+        e.C13 + [e.eng5],
         explanation="ExtractOptions derives from threading.local with a single module-level instance and None defaults; push saves both fields before writing them and restores exactly the saved pair in a finally enclosing the single yield; "
                     "no other code stores to the fields; extract/extract_outermost do all work inside push(<own parameters under their own names>), extract_since/extract_until forward both options; all four agree on the documented defaults; "
                     "extract_child refuses when options are unset, and returns the root-only stub iff for_task and not recurse_child_tasks (truth table); frame.contexts is stored only under with_contexts and that region changes no engine state.",
@@ -160,7 +160,7 @@ PROPS = {
         design_ref="DESIGN.md section 4, C06",
     ),
     "C07": S(
-        safety.C07 + layout.RULES + formulas.RULES + [e.cont1_2],
+        safety.C07 + layout.RULES + formulas.RULES + [e.cont1_2, fmt.cont7],
         explanation="Protocol of the racing-thread snapshot in _lowlevel_cpython_311.inspect_frame: every read through the interpreter-frame pointer (f_frame.contents, iframe fields, addressof, py_object array construction, slot reads) lies inside the retry loop's try; "
                     "the validity token f_lasti is sampled before the first raw read of each attempt; on the CFG, an `assert frame.f_lasti == lasti_before` re-check lies on every path from the raw header reads to the first slot read, between consecutive slot reads, "
                     "and between the last raw read and the acceptance of the snapshot; the AssertionError handler cannot fall through to acceptance; the loop is bounded by a literal and exhaustion raises. "
@@ -175,7 +175,7 @@ PROPS = {
         design_ref="DESIGN.md section 4, C07",
     ),
     "C04": S(
-        slices.C04,
+        slices.C04 + [safety.esc1, safety.idkey1],
         explanation="Three necessary conditions of running-stack slicing, and a sibling check: the limit-trimming condition of unwrap_stackslice as a truth table over (inner is None, outer is None): the head is kept iff only outer is given; "
                     "the argument mapping of extract_since / extract_until onto StackSlice (including the f_back walk for a frame-valued limit) and keyword-only construction of every StackSlice; "
                     "get_true_caller skips exactly stackscope's own non-test modules and the singledispatch wrapper; the three built-in unwrappers agree (running -> StackSlice(outer=frame), suspended -> (frame, awaited)).",
@@ -188,7 +188,7 @@ PROPS = {
         design_ref="DESIGN.md section 4, C04",
     ),
     "C09": S(
-        slices.C09 + [e.ctx5, e.cont1_2, e.opt1] + version.API,
+        slices.C09 + [e.ctx5, e.cont1_2, e.opt1, o.alias1, o.exi1_producers, safety.esc1] + version.API,
         explanation="inner_stack is assigned from extract_child(<manager's generator>, for_task=False) only under `not context.is_exiting` in both sibling registrations; the four-way classification of elaborate_exit_stack assigns method names in sync/async pairs that are real methods of ExitStack/AsyncExitStack "
                     "on every supported interpreter, and every private contextlib name it reads (_exit_callbacks, element order (is_sync, callback), wrapper name _exit_wrapper, free variables args/kwds, __wrapped__, MethodType exit wrappers, _GeneratorContextManagerBase attributes) "
                     "agrees with contextlib.py of CPython 3.9-3.12; the child's is_async is the negation of is_sync; children are unfolded with fill_context, appended in deque (registration) order and assigned once.",
@@ -214,7 +214,7 @@ PROPS = {
         design_ref="DESIGN.md section 4, C18",
     ),
     "C19": S(
-        fmt.C19 + version.API,
+        fmt.C19 + [fmt.fmt10_11] + version.API,
         explanation="The two summary-side visibility tests; sibling agreement between Frame._format and as_stdlib_summary_with_contexts on when the frame's own entry is omitted (truth table, addressed as contexts[-1]); "
                     "no argument of any FrameSummary construction is a frame or object graph (locals is None or a dict of repr strings) and the entries carry (filename, lineno, funcname) / the with-line; "
                     "format_flat = header, StackSummary.format() iff frames, leaf, error; every option is forwarded to the same-named parameter through the summary entry points; "
@@ -230,7 +230,7 @@ PROPS = {
         design_ref="DESIGN.md section 4, C19",
     ),
     "C20": S(
-        fmt.C20 + [o.exi1_producers, version.ver1_opcodes] + version.API,
+        fmt.C20 + [o.exi1_producers, o.alias1, o.opc1_cache_normalisation, o.opc6_exit_templates, version.ver1_opcodes] + version.API,
         explanation="The trickery call is inside a try whose Exception handler warns with InspectionWarning and assigns the referents result (never re-raises), and referents is used when trickery is unavailable; the mode switch is a plain module-level global (not thread-local), "
                     "written only in set_trickery_enabled and _check_trickery_available and always under _trickery_lock; set_trickery_enabled stores its argument unchanged; _check_trickery_available returns the stored value whenever it is not None and re-tests after taking the lock; "
                     "a failing self-test warns and stores False; the referents producer filters bound __exit__/__aexit__ methods, derives is_async from the name, takes obj from __self__, appends the exiting entry last, and roots the scan at the owning generator exactly on 3.11/3.12.",
@@ -272,7 +272,7 @@ PROPS = {
         design_ref="DESIGN.md section 13.4",
     ),
     "C14": S(
-        cc.C14 + [safety.thr2, e.opt56] + version.API,
+        cc.C14 + [safety.thr2, e.opt56, o.alias1, o.exi1_producers] + version.API,
         explanation="Thin: structural necessary conditions in the Trio glue. A nursery context's obj is manager._nursery and its children are exactly [extract_child(t, for_task=True) for t in that nursery's child_tasks] "
                     "(unfiltered, in order); a Task unwraps to task.coro (TRIO-1); extract_child(for_task=True) returns a stub exactly when recursion was not requested (OPT-5/6); the worker thread of to_thread.run_sync is matched "
                     "by identity of the name object, not by its value (THR-2); the search for the Trio runner skips thread-local dicts without a 'runner' entry instead of failing (TRIO-2).",
@@ -285,7 +285,7 @@ PROPS = {
         design_ref="DESIGN.md section 13.4",
     ),
     "C15": S(
-        cc.C15 + [slices.slc6],
+        cc.C15 + [slices.slc6, safety.esc1],
         explanation="Thin: unwrap_greenlet as a truth table over its four tests (no frame / alive / is the calling greenlet / has a parent): suspended -> StackSlice(inner=gr_frame); dead or unstarted -> no frames; "
                     "running but not the caller's -> RuntimeError before anything is taken from the caller's own stack; the caller's greenlet -> its own part of the running stack (GRN-1); greenlet_getcurrent is greenlet's own "
                     "getcurrent whenever greenlet is importable, the placeholder only under except ImportError (GRN-2); the walk through greenlet parents ends when there is no parent, not when a greenlet has no frame (SLC-6).",
